@@ -232,6 +232,10 @@ class _Table:
             f'out-{os.getpid()}-{cfg.get("tag", 0)}{suffix}.json'
         if self.outpath.exists():
             self.outpath.unlink()
+        if cfg.get('stale_output'):
+            # the output path already holds the complete log of an earlier session
+            self.outpath.write_text('{"logs": [\n{"board_id": "stale-1"},\n{"board_id": "stale-2"}\n]}')
+        self.end_snapshots: List[Optional[str]] = []
         self.at_stuck: Dict[str, Any] = {}
         self.at_main_return: Dict[str, Any] = {}
         self.settings = None
@@ -357,6 +361,7 @@ class _Table:
                             orig_connect(addr)
                             sock.conn.mangle = hook
                             info['conn'] = sock.conn
+                            sock.conn.peer.observer = self.server_says
                             gate['turn'] += 1
                         sock.connect = connect
                         info['client'] = cl
@@ -395,6 +400,15 @@ class _Table:
         for idx, rq in enumerate(requesters):
             fn = mk_client(idx, rq) if rq['kind'] == 'client' else mk_raw(idx, rq)
             sched.spawn(f'client{self.suffix}{idx}', fn)
+
+    def server_says(self, data: bytes) -> None:
+        # the moment the session is declared over to a seat: what does the log
+        # on disk look like to somebody who reads it now?
+        if data.startswith(b'End of session'):
+            try:
+                self.end_snapshots.append(self.outpath.read_text())
+            except OSError:
+                self.end_snapshots.append(None)
 
     def observe_stuck(self) -> None:
         try:
@@ -445,6 +459,7 @@ class _Table:
             self.outpath.unlink()
         except OSError:
             pass
+        result['end_snapshots'] = self.end_snapshots
         result['at_stuck'] = self.at_stuck
         result['clock'] = sched.clock
         result['npoints'] = {t.name: t.npoints for t in sched.threads}
